@@ -37,6 +37,7 @@ CONSTANTS MaxSteps        \* bound on machine steps per run (a run that exceeds 
      inv o m args | get o m | setf o m e | map kvs                                                 *)
 
 Openers == {"if", "while", "for", "block", "try", "fn", "class", "method"}
+(*  class x d sup(var node or Nil-literal) superd ctor ;  method x ps kind(method|static|ctor) sd ... end ;  end  *)
 
 RECURSIVE ScanTo(_, _, _, _)
 ScanTo(p, i, depth, want) ==         \* first j >= i at nesting depth 0 with p[j].t \in want (0 = none)
@@ -57,11 +58,14 @@ FinallyOf(p, i) == ScanTo(p, i + 1, 0, {"finally"})
    ========================================================================================= *)
 Cell(v)              == [k |-> "cell", v |-> v]
 Closure(at, env, name, ps, lam, body, mod) ==
-    [k |-> "clo", at |-> at, env |-> env, name |-> name, ps |-> ps, lam |-> lam, body |-> body, mod |-> mod]
+    [k |-> "clo", at |-> at, env |-> env, name |-> name, ps |-> ps, lam |-> lam, body |-> body, mod |-> mod,
+     sd |-> 0, ctor |-> ""]      \* sd: declaration id of self / Self in a method; ctor: "" | "default" | "init"
 VecObj(es)           == [k |-> "vec", es |-> es]
 TupObj(es)           == [k |-> "tuple", es |-> es]
 RangeObj(a, b)       == [k |-> "range", a |-> a, b |-> b]
-InstObj(cls, fields) == [k |-> "inst", cls |-> cls, fields |-> fields]     \* cls: class name (built-in error classes)
+InstObj(cls, fields) == [k |-> "inst", cls |-> cls, fields |-> fields]     \* cls: a class value (Cls(name) built-in, or Ref to a class object)
+ClassObj(name, sup, methods, statics) == [k |-> "class", name |-> name, sup |-> sup, methods |-> methods, statics |-> statics]
+BoundObj(recv, meth) == [k |-> "bound", recv |-> recv, meth |-> meth]
 IterObj(kind, src, pos) == [k |-> "iter", kind |-> kind, src |-> src, pos |-> pos]
 
 ErrorClasses == {"Error", "RuntimeError", "AttributeError", "IndexError", "ImportError", "NameError",
@@ -79,7 +83,8 @@ Comp(c, v) == [c |-> c, v |-> v, ol |-> 0, of |-> -1]
 Ctl(c, at, envLen) == [c |-> c, at |-> at, envLen |-> envLen, ph |-> "body", pend |-> NormalC, it |-> Nil, vsLen |-> 0]
 
 Frame(clo, pc, env, self, mod) ==
-    [clo |-> clo, pc |-> pc, env |-> env, k |-> <<>>, vs |-> <<>>, ctl |-> <<>>, self |-> self, mod |-> mod, line |-> pc]
+    [clo |-> clo, pc |-> pc, env |-> env, k |-> <<>>, vs |-> <<>>, ctl |-> <<>>, self |-> self, mod |-> mod, line |-> pc,
+     selfcell |-> 0, ctor |-> FALSE]     \* ctor: an initialiser's frame returns its `self` whatever is returned
 
 (* a fiber: its frames (empty = finished), the fiber that called it (0 = none: new, suspended, or the
    main fiber), and `fresh`: the saved ip of its first frame is still the start of the code, which is
@@ -128,6 +133,7 @@ Lookup(env, d) == EnvFind(env, d, Len(env))
 (* =========================================================================================
    Text of values (Display for Value); addresses print as [MEMADDR]
    ========================================================================================= *)
+ClassName(m, c) == IF c.k = "cls" THEN c.v ELSE m.store[c.v].name
 RECURSIVE Show(_, _, _), ShowSeq(_, _, _, _)
 ShowSeq(m, es, i, seen) ==
     IF i > Len(es) THEN ""
@@ -146,7 +152,9 @@ Show(m, v, seen) ==
                                 ELSE "(" \o ShowSeq(m, o.es, 1, seen \cup {v.v}) \o (IF Len(o.es) = 1 THEN "," ELSE "") \o ")")
            [] o.k = "range" -> "Range(" \o ToString(o.a) \o ", " \o ToString(o.b) \o ")"
            [] o.k = "clo" -> "<fn " \o o.name \o " @ [MEMADDR]>"
-           [] o.k = "inst" -> "<" \o o.cls \o " instance @ [MEMADDR]>"
+           [] o.k = "inst" -> "<" \o ClassName(m, o.cls) \o " instance @ [MEMADDR]>"
+           [] o.k = "class" -> "<class " \o o.name \o ">"
+           [] o.k = "bound" -> "<method " \o m.store[o.meth.v].name \o " on " \o Show(m, o.recv, seen) \o " @ [MEMADDR]>"
            [] o.k = "fiber" -> "<fiber @ [MEMADDR]>"
            [] o.k = "iter" -> (IF o.kind = "range" THEN "ObjRangeIter instance"
                                ELSE "<Obj" \o (IF o.kind = "vec" THEN "Vec" ELSE "Tuple") \o "Iter instance @ [MEMADDR]>")
@@ -171,12 +179,13 @@ ValEq(m, a, b, fuel) ==
    Errors and exception delivery
    ========================================================================================= *)
 (* allocate an instance of a built-in error class carrying the message *)
-MkError(m, e) == [m |-> Alloc(m, InstObj(e.kind, [context |-> S(e.msg)])), v |-> Ref(NewAddr(m))]
+MkError(m, e) == [m |-> Alloc(m, InstObj(Cls(e.kind), [context |-> S(e.msg)])), v |-> Ref(NewAddr(m))]
 
 KindOfThrown(m, v) ==          \* new_error_from_value
     IF IsKind(m, v, "inst") THEN
-         LET cls == Obj(m, v).cls IN
-         [kind |-> IF cls \in (ErrorClasses \ {"Error", "StopIter"}) THEN cls ELSE "RuntimeError",
+         LET cls == ClassName(m, Obj(m, v).cls)
+             builtin == Obj(m, v).cls.k = "cls" IN
+         [kind |-> IF builtin /\ cls \in (ErrorClasses \ {"Error", "StopIter"}) THEN cls ELSE "RuntimeError",
           desc |-> cls,
           ctx  |-> IF "context" \in DOMAIN Obj(m, v).fields THEN Obj(m, v).fields.context ELSE v]
     ELSE [kind |-> "RuntimeError", desc |-> "exception", ctx |-> v]
@@ -219,7 +228,9 @@ Deliver(m, c, fi, orig) ==
     LET fr == fib.frames[fi] IN
     IF fr.ctl = <<>> THEN
          \* leaves the function activation
-         IF c.c = "return" THEN
+         IF c.c = "return" /\ fr.ctor /\ c.v # m.store[fr.selfcell].v THEN
+              Deliver(m, [c EXCEPT !.v = m.store[fr.selfcell].v], fi, orig)
+         ELSE IF c.c = "return" THEN
               IF fi = 1 THEN
                    \* the fiber's body returned
                    [m EXCEPT !.fibers[m.cur].frames = <<>>, !.retv = c.v, !.brk = TRUE]
@@ -311,6 +322,10 @@ Items(e) ==
       [] e.k = "interp" -> EvParts(e.parts, 1) \o <<It1("mkstr", Len(e.parts))>>
       [] e.k = "inv" -> <<Ev(e.o)>> \o EvAll(e.args, 1) \o <<It2("inv", e.m, Len(e.args))>>
       [] e.k = "get" -> <<Ev(e.o), It1("get", e.m)>>
+      [] e.k = "setf" -> <<Ev(e.o), Ev(e.e), It1("setf", e.m)>>
+      [] e.k = "superinv" -> <<Ev([k |-> "var", x |-> e.sx, d |-> e.sd])>> \o EvAll(e.args, 1) \o <<[i |-> "superinv", a |-> e.m, b |-> Len(e.args), d |-> e.d]>>
+      [] e.k = "superget" -> <<Ev([k |-> "var", x |-> e.sx, d |-> e.sd]), [i |-> "superget", a |-> e.m, d |-> e.d]>>
+      [] e.k = "Self" -> <<Ev([k |-> "var", x |-> "Self", d |-> e.d]), It("classof")>>
 
 NameErr(x) == Err("NameError", "Undefined variable '" \o x \o "'.")
 
@@ -331,6 +346,40 @@ BoundedIndex(m, iv, len, kind) ==
              i == IF i0 < 0 THEN i0 + len ELSE i0
          IN IF i < 0 \/ i >= len THEN Bad(IndexErr(kind)) ELSE Ok(N(i))
 
+NatM(name) == [k |-> "natm", v |-> name]
+ObjectMethods == [x \in {"derives"} |-> NatM("derives")]
+ErrorMethods == [x \in {"derives", "new"} |-> IF x = "new" THEN NatM("Error.new") ELSE NatM("derives")]
+StopIterMethods == [x \in {"derives", "new"} |-> IF x = "new" THEN NatM("StopIter.new") ELSE NatM("derives")]
+BuiltinErrorNames == ErrorClasses \ {"StopIter"}
+(* methods table of a class value (flattened at definition time, as the code copies them down) *)
+MethodsOf(m, c) ==
+    IF c.k = "ref" THEN m.store[c.v].methods
+    ELSE IF c.v \in BuiltinErrorNames THEN ErrorMethods
+    ELSE IF c.v = "StopIter" THEN StopIterMethods
+    ELSE ObjectMethods
+(* declared superclass of a class value (Nil at the root) *)
+SuperOf(m, c) ==
+    IF c.k = "ref" THEN m.store[c.v].sup
+    ELSE IF c.v = "Object" THEN Nil
+    ELSE IF c.v \in (ErrorClasses \ {"Error"}) THEN Cls("Error")
+    ELSE IF c.v \in {"VecIter", "TupleIter", "RangeIter", "StringIter", "MapIter", "FilterIter"} THEN Cls("Iter")
+    ELSE Cls("Object")
+IsClassValue(m, v) == v.k = "cls" \/ IsKind(m, v, "class")
+(* get_class *)
+ClassOfValue(m, v) ==
+    CASE v.k = "nil" -> Cls("Nil") [] v.k = "bool" -> Cls("Bool") [] v.k \in {"num", "flt"} -> Cls("Num") [] v.k = "str" -> Cls("String")
+      [] v.k = "nat" -> Cls("BuiltIn") [] v.k = "cls" -> Cls("Type")
+      [] v.k = "ref" ->
+         LET o == m.store[v.v] IN
+         CASE o.k = "inst" -> o.cls [] o.k = "vec" -> Cls("Vec") [] o.k = "tuple" -> Cls("Tuple") [] o.k = "range" -> Cls("Range")
+           [] o.k = "clo" -> Cls("Func") [] o.k = "bound" -> Cls("Method") [] o.k = "fiber" -> Cls("Fiber")
+           [] o.k = "iter" -> Cls(CASE o.kind = "vec" -> "VecIter" [] o.kind = "tuple" -> "TupleIter" [] OTHER -> "RangeIter")
+           [] o.k = "class" -> Cls(o.name \o "Class")
+           [] OTHER -> Cls("Object")
+RECURSIVE Derives(_, _, _, _)
+Derives(m, c, q, fuel) == IF c = q THEN TRUE ELSE IF c.k = "nil" \/ fuel = 0 THEN FALSE ELSE Derives(m, SuperOf(m, c), q, fuel - 1)
+
+
 (* ---- calls ------------------------------------------------------------------------------- *)
 ArityErr(want, got) == Err("TypeError", "Expected " \o ToString(want) \o " arguments but found " \o ToString(got) \o ".")
 ParamErr(want, got) == Err("TypeError", "Expected " \o ToString(want) \o " parameter" \o (IF want = 1 THEN "" ELSE "s")
@@ -343,13 +392,47 @@ BindParams(m, env, ps, args, i) ==      \* allocate one cell per parameter
     ELSE BindParams(Alloc(m, Cell(args[i])), Append(env, <<ps[i].d, NewAddr(m)>>), ps, args, i + 1)
 
 (* call value f with args (already popped from vs of frame fr, which is the frame stored in m) *)
+RECURSIVE CallValue(_, _, _, _)
 CallValue(m, f, args, self) ==
-    IF IsKind(m, f, "clo") THEN
+    IF IsKind(m, f, "bound") THEN CallValue(m, Obj(m, f).meth, args, Obj(m, f).recv)
+    ELSE IF f.k = "natm" THEN
+         \* built-in methods that reach programs through inheritance from built-in classes
+         CASE f.v = "derives" ->
+                IF Len(args) # 1 THEN RaiseErr(m, ParamErr(1, Len(args)))
+                ELSE IF ~IsClassValue(m, args[1]) THEN
+                     RaiseErr(m, Err("ValueError", "Expected a class name but found '" \o Text(m, args[1]) \o "'."))
+                ELSE SetFrame(m, Push(CurFrame(m), B(Derives(m, ClassOfValue(m, self), args[1], 8))))
+           [] f.v \in {"Error.new", "StopIter.new"} ->
+                \* core.yl:  #[constructor] fn new(self, context) { self.context = context; }   (StopIter: super.new(nil))
+                LET want == IF f.v = "Error.new" THEN 1 ELSE 0 IN
+                IF Len(args) # want THEN RaiseErr(m, ArityErr(want, Len(args)))
+                ELSE IF IsClassValue(m, self) THEN
+                     LET m2 == Alloc(m, InstObj(self, [context |-> IF want = 1 THEN args[1] ELSE Nil])) IN
+                     SetFrame(m2, Push(CurFrame(m2), Ref(NewAddr(m))))
+                ELSE IF IsKind(m, self, "inst") THEN
+                     SetFrame([m EXCEPT !.store[self.v].fields = ("context" :> (IF want = 1 THEN args[1] ELSE Nil)) @@ @], Push(CurFrame(m), self))
+                ELSE RaiseErr(m, Err("AttributeError", "Only instances have fields."))
+           [] OTHER -> RaiseErr(m, Err("TypeError", "Can only call functions and methods."))
+    ELSE IF IsKind(m, f, "clo") /\ Obj(m, f).ctor = "default" THEN
+         \* #[constructor(name)] on the class: Construct 0; return self
+         IF Len(args) # 0 THEN RaiseErr(m, ArityErr(0, Len(args)))
+         ELSE IF IsClassValue(m, self) THEN
+              LET m2 == Alloc(m, InstObj(self, [x \in {} |-> Nil])) IN SetFrame(m2, Push(CurFrame(m2), Ref(NewAddr(m))))
+         ELSE SetFrame(m, Push(CurFrame(m), self))
+    ELSE IF IsKind(m, f, "clo") THEN
          LET c == Obj(m, f) IN
          IF Len(args) # Len(c.ps) THEN RaiseErr(m, ArityErr(Len(c.ps), Len(args)))
          ELSE IF NFrames(m) = FramesMax THEN RaiseErr(m, Err("IndexError", "Stack overflow."))
-         ELSE LET b == BindParams(m, c.env, c.ps, args, 1)
-                  fr0 == Frame(f.v, IF c.lam THEN 0 ELSE c.at + 1, b.env, self, c.mod)
+         ELSE LET \* an initialiser called through a class constructs the instance first (Construct)
+                  mk == c.ctor = "init" /\ IsClassValue(m, self)
+                  m0 == IF mk THEN Alloc(m, InstObj(self, [x \in {} |-> Nil])) ELSE m
+                  selfv == IF mk THEN Ref(NewAddr(m)) ELSE self
+                  \* a method sees its receiver as the variable self / Self
+                  m1 == IF c.sd > 0 THEN Alloc(m0, Cell(selfv)) ELSE m0
+                  env1 == IF c.sd > 0 THEN Append(c.env, <<c.sd, NewAddr(m0)>>) ELSE c.env
+                  b == BindParams(m1, env1, c.ps, args, 1)
+                  fr00 == Frame(f.v, IF c.lam THEN 0 ELSE c.at + 1, b.env, selfv, c.mod)
+                  fr0 == [fr00 EXCEPT !.selfcell = IF c.sd > 0 THEN NewAddr(m0) ELSE 0, !.ctor = (c.ctor = "init")]
                   fr1 == IF c.lam THEN [fr0 EXCEPT !.k = <<Ev(c.body), It("ret")>>, !.line = c.at] ELSE fr0
               IN [b.m EXCEPT !.fibers[m.cur].frames = Append(CurFiber(m).frames, fr1), !.brk = TRUE,
                              !.fibers[m.cur].fresh = IF NFrames(m) = 1 THEN FALSE ELSE @]
@@ -359,11 +442,12 @@ CallValue(m, f, args, self) ==
                 ELSE SetFrame([m EXCEPT !.out = Append(m.out, Text(m, args[1]))], Push(CurFrame(m), Nil))
            [] f.v = "type" ->
                 IF Len(args) # 1 THEN RaiseErr(m, ParamErr(1, Len(args)))
-                ELSE SetFrame(m, Push(CurFrame(m), S("<type>")))
+                ELSE IF IsKind(m, args[1], "class") \/ args[1].k = "cls" THEN [Finish(m, FALSE, "OutOfModel", <<>>) EXCEPT !.oom = TRUE]
+                ELSE SetFrame(m, Push(CurFrame(m), ClassOfValue(m, args[1])))
            [] OTHER -> RaiseErr(m, Err("TypeError", "Can only call functions and methods."))
     ELSE RaiseErr(m, Err("TypeError", "Can only call functions and methods."))
 
-StopIterV(m) == [m |-> Alloc(m, InstObj("StopIter", [context |-> Nil])), v |-> Ref(NewAddr(m))]
+StopIterV(m) == [m |-> Alloc(m, InstObj(Cls("StopIter"), [context |-> Nil])), v |-> Ref(NewAddr(m))]
 AttrErr(name) == Err("AttributeError", "Undefined property '" \o name \o "'.")
 
 (* invoke method `name` on receiver r with args; the active frame of m has r and the args already
@@ -374,7 +458,9 @@ Invoke(m, r, name, args) ==
         Ret(m2, v) == SetFrame(m2, Push(CurFrame(m2), v))
         Arity(k) == n # k
     IN
-    IF IsKind(m, r, "vec") THEN
+    IF name = "derives" /\ ~IsClassValue(m, r) /\ ~(IsKind(m, r, "inst") /\ "derives" \in DOMAIN Obj(m, r).fields) THEN
+         CallValue(m, NatM("derives"), args, r)
+    ELSE IF IsKind(m, r, "vec") THEN
          LET es == Obj(m, r).es IN
          CASE name = "push" -> IF Arity(1) THEN RaiseErr(m, ParamErr(1, n))
                                ELSE Ret([m EXCEPT !.store[r.v].es = Append(es, args[1])], r)
@@ -407,6 +493,20 @@ Invoke(m, r, name, args) ==
                      IF it.pos >= Len(es) THEN LET s == StopIterV(m) IN Ret(s.m, s.v)
                      ELSE Ret([m EXCEPT !.store[r.v].pos = it.pos + 1], es[it.pos + 1])
            [] OTHER -> RaiseErr(m, AttrErr(name))
+    ELSE IF IsKind(m, r, "inst") THEN
+         \* fields shadow methods; then the class's (flattened) method table
+         IF name \in DOMAIN Obj(m, r).fields THEN CallValue(m, Obj(m, r).fields[name], args, Nil)
+         ELSE LET ms == MethodsOf(m, Obj(m, r).cls) IN
+              IF name \in DOMAIN ms THEN CallValue(m, ms[name], args, r) ELSE RaiseErr(m, AttrErr(name))
+    ELSE IF IsKind(m, r, "class") THEN
+         \* called through the class: only static methods / constructors (the metaclass's table)
+         LET c == Obj(m, r) IN
+         IF name \in c.statics THEN CallValue(m, c.methods[name], args, r)
+         ELSE IF name = "derives" THEN [Finish(m, FALSE, "OutOfModel", <<>>) EXCEPT !.oom = TRUE]
+         ELSE RaiseErr(m, AttrErr(name))
+    ELSE IF r.k = "cls" /\ r.v \in {"Error", "StopIter"} /\ name = "new" THEN CallValue(m, MethodsOf(m, r)["new"], args, r)
+    ELSE IF r.k = "cls" /\ r.v # "Fiber" THEN
+         (IF name = "derives" THEN [Finish(m, FALSE, "OutOfModel", <<>>) EXCEPT !.oom = TRUE] ELSE RaiseErr(m, AttrErr(name)))
     ELSE IF r.k = "cls" /\ r.v = "Fiber" THEN
          CASE name = "new" ->
                 IF Arity(1) THEN RaiseErr(m, ParamErr(1, n))
@@ -456,7 +556,7 @@ Invoke(m, r, name, args) ==
            [] OTHER -> RaiseErr(m, AttrErr(name))
     ELSE RaiseErr(m, AttrErr(name))
 
-IsStopIter(m, v) == IsKind(m, v, "inst") /\ Obj(m, v).cls = "StopIter"
+IsStopIter(m, v) == IsKind(m, v, "inst") /\ Obj(m, v).cls = Cls("StopIter")
 
 (* ---- one work item ----------------------------------------------------------------------- *)
 Micro(m) ==
@@ -583,10 +683,44 @@ Micro(m) ==
                                           !.pc = EndOf(m.prog, e.at) + 1])
             ELSE SetFrame(m2, [fr1 EXCEPT !.vs = Pop(vs), !.pc = e.at + 1])
       [] it.i = "get" ->
-         LET o == Top(vs) IN
+         LET o == Top(vs)
+             Bind(meth) == IF meth.k = "natm" THEN [Finish(m, FALSE, "OutOfModel", <<>>) EXCEPT !.oom = TRUE]   \* bound natives: not modelled
+                           ELSE LET m2 == Alloc(m1, BoundObj(o, meth)) IN
+                                SetFrame(m2, [fr1 EXCEPT !.vs = Append(Pop(vs), Ref(NewAddr(m1)))])
+         IN
          IF IsKind(m, o, "inst") /\ it.a \in DOMAIN Obj(m, o).fields THEN Replace(1, Obj(m, o).fields[it.a])
-         ELSE IF IsKind(m, o, "inst") THEN Fail(AttrErr(it.a))
-         ELSE [Finish(m, FALSE, "OutOfModel", <<>>) EXCEPT !.oom = TRUE]      \* bound natives are not modelled
+         ELSE IF IsKind(m, o, "inst") THEN
+              LET ms == MethodsOf(m, Obj(m, o).cls) IN
+              IF it.a \in DOMAIN ms THEN Bind(ms[it.a]) ELSE Fail(AttrErr(it.a))
+         ELSE IF IsKind(m, o, "class") THEN
+              (IF it.a \in Obj(m, o).statics THEN Bind(Obj(m, o).methods[it.a]) ELSE Fail(AttrErr(it.a)))
+         ELSE [Finish(m, FALSE, "OutOfModel", <<>>) EXCEPT !.oom = TRUE]
+      [] it.i = "setf" ->
+         LET o == vs[Len(vs) - 1] v == Top(vs) IN
+         IF IsKind(m, o, "inst") THEN
+              SetFrame([m EXCEPT !.store[o.v].fields = (it.a :> v) @@ @], [fr1 EXCEPT !.vs = Append(PopN(vs, 2), v)])
+         ELSE Fail(Err("AttributeError", "Only instances have fields."))
+      [] it.i = "classof" ->
+         LET v == Top(vs) IN
+         IF IsClassValue(m, v) THEN m1
+         ELSE IF IsKind(m, v, "inst") THEN Replace(1, Obj(m, v).cls)
+         ELSE Replace(1, ClassOfValue(m, v))
+      [] it.i = "superinv" ->
+         \* self and the arguments are on the value stack; the superclass is the class's hidden `super` variable
+         LET n == it.b
+             selfv == vs[Len(vs) - n]
+             sup == m.store[Lookup(fr.env, it.d)].v
+             ms == MethodsOf(m, sup)
+             m2 == SetFrame(m, [fr1 EXCEPT !.vs = PopN(vs, n + 1)])
+         IN IF it.a \in DOMAIN ms THEN CallValue(m2, ms[it.a], LastN(vs, n), selfv) ELSE RaiseErr(m2, AttrErr(it.a))
+      [] it.i = "superget" ->
+         LET selfv == Top(vs)
+             sup == m.store[Lookup(fr.env, it.d)].v
+             ms == MethodsOf(m, sup)
+         IN IF it.a \notin DOMAIN ms THEN Fail(AttrErr(it.a))
+            ELSE IF ms[it.a].k = "natm" THEN [Finish(m, FALSE, "OutOfModel", <<>>) EXCEPT !.oom = TRUE]
+            ELSE LET m2 == Alloc(m1, BoundObj(selfv, ms[it.a])) IN
+                 SetFrame(m2, [fr1 EXCEPT !.vs = Append(Pop(vs), Ref(NewAddr(m1)))])
       [] it.i = "fmt" -> IF Top(vs).k = "str" THEN m1 ELSE Replace(1, S(Text(m, Top(vs))))
       [] it.i = "mkstr" ->
          LET RECURSIVE Cat(_)
@@ -629,6 +763,38 @@ Fetch(m) ==
               IN SetFrame(m2, [frl EXCEPT !.env = env2, !.pc = EndOf(p, pc) + 1])
          ELSE LET m2 == Alloc(m, Closure(pc, fr.env, tk.x, tk.ps, FALSE, Nil, fr.mod))
               IN SetFrame(SetGlobal(m2, fr.mod, tk.x, Ref(NewAddr(m))), [frl EXCEPT !.pc = EndOf(p, pc) + 1])
+      [] tk.t = "class" ->
+         \* the variable exists (nil) while the class is being defined; the class value is stored at the end
+         LET hasSup == tk.sup.k = "var"
+             a0 == NewAddr(m)
+             mA == IF tk.d > 0 THEN Alloc(m, Cell(Nil)) ELSE SetGlobal(m, fr.mod, tk.x, Nil)
+             envA == IF tk.d > 0 THEN Append(fr.env, <<tk.d, a0>>) ELSE fr.env
+             frA == [frl EXCEPT !.env = envA]
+             supR == IF hasSup THEN ReadVar(mA, frA, tk.sup.x, tk.sup.d) ELSE Ok(Cls("Object"))
+         IN IF IsErr(supR.err) THEN RaiseErr(SetFrame(mA, frA), supR.err)
+            ELSE IF ~IsClassValue(mA, supR.v) THEN RaiseErr(SetFrame(mA, frA), Err("RuntimeError", "Superclass must be a class."))
+            ELSE LET inherited == MethodsOf(mA, supR.v)
+                     \* the hidden local `super` (only when a superclass is named)
+                     mB == IF hasSup THEN Alloc(mA, Cell(supR.v)) ELSE mA
+                     envB == IF hasSup THEN Append(envA, <<tk.superd, NewAddr(mA)>>) ELSE envA
+                     caddr == NewAddr(mB)
+                     mC == Alloc(mB, ClassObj(tk.x, supR.v, inherited, {}))
+                     \* #[constructor(name)]: a default initialiser, defined before the methods
+                     mD == IF tk.ctor = "" THEN mC
+                           ELSE LET cl == [Closure(pc, envB, tk.ctor, <<>>, FALSE, Nil, fr.mod) EXCEPT !.ctor = "default"]
+                                    mX == Alloc(mC, cl)
+                                IN [mX EXCEPT !.store[caddr].methods = (tk.ctor :> Ref(NewAddr(mC))) @@ @,
+                                              !.store[caddr].statics = @ \cup {tk.ctor}]
+                     entry == [Ctl("class", pc, Len(envA)) EXCEPT !.it = Ref(caddr)]
+                 IN SetFrame(mD, [frl EXCEPT !.env = envB, !.ctl = Append(fr.ctl, entry), !.pc = pc + 1])
+      [] tk.t = "method" ->
+         LET e == Top(fr.ctl)
+             caddr == e.it.v
+             cl == [Closure(pc, fr.env, tk.x, tk.ps, FALSE, Nil, fr.mod) EXCEPT !.sd = tk.sd, !.ctor = IF tk.kind = "ctor" THEN "init" ELSE ""]
+             m2 == Alloc(m, cl)
+             m3 == [m2 EXCEPT !.store[caddr].methods = (tk.x :> Ref(NewAddr(m))) @@ @,
+                              !.store[caddr].statics = IF tk.kind = "method" THEN @ \ {tk.x} ELSE @ \cup {tk.x}]
+         IN SetFrame(m3, [frl EXCEPT !.pc = EndOf(p, pc) + 1])
       [] tk.t = "else" ->
          \* the then-branch finished: leave the if statement
          LET e == Top(fr.ctl) IN
@@ -654,6 +820,11 @@ Fetch(m) ==
          LET e == Top(fr.ctl)
              out == [frl EXCEPT !.ctl = Pop(fr.ctl), !.env = SubSeq(fr.env, 1, e.envLen)]
          IN CASE e.c = "while" -> Jump([out EXCEPT !.pc = e.at])
+              [] e.c = "class" ->
+                   \* DefineClass: the variable finally refers to the class
+                   LET ctk == p[e.at] IN
+                   IF ctk.d > 0 THEN SetFrame([m EXCEPT !.store[Lookup(fr.env, ctk.d)].v = e.it], [out EXCEPT !.pc = pc + 1])
+                   ELSE SetFrame(SetGlobal(m, fr.mod, ctk.x, e.it), [out EXCEPT !.pc = pc + 1])
               [] e.c = "for" -> Jump([frl EXCEPT !.env = SubSeq(fr.env, 1, e.envLen + 1), !.k = <<[i |-> "fornext"]>>, !.pc = e.at])
               [] e.c = "try" /\ e.ph = "finally" /\ e.pend.c # "normal" ->
                    DeliverHere(SetFrame(m, out), e.pend)
